@@ -13,7 +13,9 @@ PREFIX, POSTFIX = "cachefile_", "_cachefile"
 # sizes are comparable to the 1 MB the cache adds when it enlarges itself, so that evictions
 # still occur after an enlargement
 SIZES = {k: v * 1000 for k, v in {"a": 400, "b": 400, "c": 300, "d": 250, "e": 700, "f": 120, "g": 90, "h": 60,
-                                  "i": 55, "j": 50, "k": 45, "l": 40, "m": 35, "n": 30}.items()}
+                                  "i": 55, "j": 50, "k": 45, "l": 40, "m": 35, "n": 30,
+                                  # a legitimately empty resource (an empty day file): 0 bytes are its exact content
+                                  "z": 0}.items()}
 LOGICAL_BASE = 1_000_000_000  # 2001-09-09, far in the past
 
 
